@@ -40,6 +40,10 @@ def check_exec(cfg, S: bytes, chunks) -> list[str]:
 
 
 def replay(case: dict) -> list[str]:
+    if "chunks_b" in case:
+        from mc.props import C06
+
+        return C06.replay(case)
     S = bytes.fromhex(case["stream"])
     chunks = [bytes.fromhex(c) for c in case["chunks"]] if "chunks" in case else X.split(S, case["cuts"])
     return check_exec(tuple(case["cfg"]), S, chunks)
@@ -300,6 +304,12 @@ def main(run: core.Run) -> int:
     run.merge(par.pmap(_work_e3, e3, seed=run.seed))
     run.merge(par.pmap(_work_long, [(cfg, cfg[0]) for cfg in X.CFGS], seed=run.seed))
     run.merge(par.pmap(_work_aligned, [(cfg,) for cfg in X.CFGS], seed=run.seed))
+    # ways of handing the chunks over that must not matter (one receive buffer re-used for every call, chunk objects wiped
+    # after the call, empty chunks, other live reader instances left in the middle of a frame, time passing, deep copy)
+    from mc.props import C06
+
+    vt = [(f"{'stuffed' if st else 'plain'}:{label}", S_, X.CFGS) for st in (False, True) for label, S_, _ in base_streams(st, "quick")][::3]
+    run.merge(par.pmap(C06._work_variants, vt, seed=run.seed))
     nsw = len(X.fcs_sweep_frames())
     run.merge(par.pmap(_work_sweep, [(cfg, lo, lo + 50) for cfg in X.CFGS for lo in range(0, nsw, 50)], seed=run.seed))
     tot = run.total
